@@ -39,7 +39,7 @@ func run(c *vf.Ctx) {
 	}
 	nAdv := c.N(700, 15000)
 	for i := 0; i < nAdv; i++ {
-		m := genAdv(c.Rand("adv", i))
+		m := genAdv(c.Rand("adv", i), true)
 		res := advRoundTrip(m)
 		report(res, map[string]any{"case": i, "kind": "adv", "features": m.features})
 		if i < 2 {
@@ -72,5 +72,6 @@ func run(c *vf.Ctx) {
 	c.Floor("git upload-pack confirmations of upload requests", c.Counter("git_uploadpack_confirmations"), c.N(40, 600))
 	c.Assume("equality is modulo what the encoders document: references, wants, haves and shallows are compared as sets (the encoders sort and deduplicate), capability order is insertion order")
 	c.Assume("well-formed values only: reference names valid per check-ref-format and without directory/file conflicts, capability values without spaces, no zero ids in wants/haves, ACK sequences as a server emits them (statused ACKs, optionally closed by a plain ACK of the last common object)")
+	c.Assume("advertisements served to git ls-remote carry at most the HEAD symref capability: git 2.39.5 spins forever in its own capability parsing on some advertisements with two symref= entries (reproduced with a hand-written advertisement, independent of go-git); multiple symrefs are still covered by the round-trip part")
 	c.Assume(fmt.Sprintf("git %s is the reference parser for part G; sha256 advertisements carry object-format=sha256", "2.39.5"))
 }
